@@ -97,6 +97,55 @@ impl BitW {
     }
 }
 
+impl BitW {
+    /// a normal prefix code whose `max_symbol` field is written with width selector `n3`
+    /// (2 + 2*n3 bits) and the raw value `value` (= max_symbol - 2), followed by `tokens` literal
+    /// code-length symbols (0..15, each 4 bits: the code-length code gives 0..15 length 4)
+    pub fn normal_with_max_symbol(&mut self, n3: u32, value: u64, tokens: &[u8]) {
+        self.put(0, 1);
+        self.put(19 - 4, 4);
+        let order = [17, 18, 0, 1, 2, 3, 4, 5, 16, 6, 7, 8, 9, 10, 11, 12, 13, 14, 15];
+        for &s in &order {
+            self.put(if s < 16 { 4 } else { 0 }, 3);
+        }
+        self.put(1, 1);
+        self.put(u64::from(n3), 3);
+        self.put(value & ((1u64 << (2 + 2 * n3)) - 1), 2 + 2 * n3);
+        for &l in tokens {
+            let l = u64::from(l);
+            let rev = ((l & 1) << 3) | ((l & 2) << 1) | ((l & 4) >> 1) | ((l & 8) >> 3);
+            self.put(rev, 4);
+        }
+    }
+}
+
+/// 4x1 image whose green code is a normal code with an explicit `max_symbol` field (see
+/// `normal_with_max_symbol`); the other codes are single-symbol
+pub fn file_with_max_symbol(n3: u32, value: u64, tokens: &[u8]) -> Vec<u8> {
+    let mut w = BitW::new();
+    w.header(4, 1, true);
+    w.put(0, 1);
+    w.put(0, 1);
+    w.put(0, 1);
+    w.normal_with_max_symbol(n3, value, tokens);
+    w.simple1(0);
+    w.simple1(0);
+    w.simple1(255);
+    w.simple1(0);
+    w.put(0, 64);
+    riff(&chunk(b"VP8L", &w.finish()))
+}
+
+/// the boundary values of a `max_symbol` field of width selector `n3` for an alphabet
+pub fn max_symbol_values(n3: u32, alphabet: u64) -> Vec<u64> {
+    let top = (1u64 << (2 + 2 * n3)) - 1;
+    let mut v = vec![0, 1, 2, alphabet.saturating_sub(3), alphabet.saturating_sub(2), alphabet.saturating_sub(1), alphabet, top.saturating_sub(1), top];
+    v.retain(|&x| x <= top);
+    v.sort_unstable();
+    v.dedup();
+    v
+}
+
 /// 4x1 image, no transforms, no cache, no meta codes; the green code is a normal code with the
 /// given lengths (possibly invalid), the other codes are single-symbol
 pub fn file_with_green_lengths(lens: &[u8]) -> Vec<u8> {
